@@ -65,6 +65,10 @@ def run(ctx) -> None:
         for meth, track, kind in (("aspirate", "remove", "A"), ("dispense", "add", "D")):
             ctx.reuse("C07.record-pair", c01.pair_ad, dev, meth, track, kind)
     ctx.guard("C07.tip-action", wash_method)
+    # the DiTi switch (and the limit) the user configured reaches every worklist class unchanged
+    from . import c16
+
+    ctx.reuse("C07.tip-action", c16.override_set)
     for meth in ("aspirate", "dispense"):
         ctx.guard("C07.step-block", step_records_only, meth)
     from . import c04, c18
